@@ -819,4 +819,6 @@ WITNESSES = [
      "new": "\tfor (unsigned int i = data->len - 1; i > index; i--)\n\t\tdata->ary[i - 1] = data->ary[i];"},
     {"id": "C02.w17-ipv6-equality-skips-the-third-word", "rule": "C02.R1", "file": "rtrlib/lib/ipv6.c",
      "old": "a->addr[1] == b->addr[1] && a->addr[2] == b->addr[2] &&", "new": "a->addr[1] == b->addr[1] && a->addr[1] == b->addr[1] &&"},
+    {"id": "C02.w18-exact-match-on-masked-prefixes", "rule": "C02.R1", "file": TRIE,
+     "old": "\treturn n->len == mask_len && lrtr_ip_addr_equal(n->prefix, *p);", "new": "\treturn n->len == mask_len &&\n\t       lrtr_ip_addr_equal(lrtr_ip_addr_get_bits(&n->prefix, 0, mask_len), lrtr_ip_addr_get_bits(p, 0, mask_len));"},
 ]
